@@ -539,6 +539,7 @@ fn vector_ref(xs: &[u64], e: &Entry) -> Vec<Item> {
 struct Emit<'o> {
     out: &'o mut Out,
     strings: usize, // random strings per (structure, entry)
+    sparse_w: Option<u64>, // Some(low width) while the cases of a SparseVector are emitted (constructors CIterS / CExhS)
 }
 
 impl<'o> Emit<'o> {
@@ -574,7 +575,11 @@ impl<'o> Emit<'o> {
         }
         let full = format!("{}.{}", kind, entry_name(e));
         self.out.stat(&format!("c10.{}", full));
-        let term = format!("CIter {} {} {} {} {} {}", PATH, b(DBG), src_term, entry_term(e), items_term(reference), runs_t);
+        let ctor = match self.sparse_w {
+            Some(w) => format!("CIterS {}", w),
+            None => "CIter".to_string(),
+        };
+        let term = format!("{} {} {} {} {} {} {}", ctor, PATH, b(DBG), src_term, entry_term(e), items_term(reference), runs_t);
         let json = format!("{{\"iterator\":\"{}\",\"entry\":\"{}\",\"src\":{},\"reference_len\":{},\"strings\":{}}}",
             full, entry_term(e).replace('"', ""), src_json, reference.len(), runs_j);
         self.out.case(&full, term, json, !reference.is_empty());
@@ -608,7 +613,11 @@ impl<'o> Emit<'o> {
         self.out.stat_n("c10.calls", 256 * 12);
         let full = format!("exh.{}.{}", kind, entry_name(e));
         self.out.stat(&format!("c10.{}", full));
-        let term = format!("CExh {} {} {} {} {} {}", PATH, b(DBG), src_term, entry_term(e), items_term(reference), outs);
+        let ctor = match self.sparse_w {
+            Some(w) => format!("CExhS {}", w),
+            None => "CExh".to_string(),
+        };
+        let term = format!("{} {} {} {} {} {} {}", ctor, PATH, b(DBG), src_term, entry_term(e), items_term(reference), outs);
         let json = format!("{{\"iterator\":\"{}\",\"entry\":\"{}\",\"src\":{},\"exhaustive\":\"all 256 strings of 4 calls over next,next_back,nth(1),nth_back(1) + tail\"{}}}",
             full, entry_term(e), src_json, bad);
         self.out.case(&full, term, json, !reference.is_empty());
@@ -678,7 +687,26 @@ fn plain_bitvector(em: &mut Emit, rng: &mut Rng, bits: &[bool], exhaustive: bool
 }
 
 // values: non-decreasing, all < universe; duplicates make it a multiset
+// low.width of a SparseVector, read from its serialized elements:
+// [len] ++ bitvector(ones, raw(len, nwords, words), 3 options) ++ intvector(len, width, ..)
+fn sparse_width(sv: &SparseVector) -> u64 {
+    let ser = crate::bvgen::serialize_elems(sv);
+    let mut p = 3; // len, ones, raw len
+    let nwords = ser[p] as usize;
+    p += 1 + nwords;
+    for _ in 0..3 {
+        let sz = ser[p] as usize;
+        p += 1 + sz;
+    }
+    ser[p + 1]
+}
+
 fn sparse_vector(em: &mut Emit, rng: &mut Rng, universe: usize, values: &[usize], exhaustive: bool, nentries: usize) {
+    sparse_vector_inner(em, rng, universe, values, exhaustive, nentries);
+    em.sparse_w = None;
+}
+
+fn sparse_vector_inner(em: &mut Emit, rng: &mut Rng, universe: usize, values: &[usize], exhaustive: bool, nentries: usize) {
     let multiset = values.windows(2).any(|w| w[0] == w[1]);
     let built = catch(|| {
         let mut builder = if multiset { SparseBuilder::multiset(universe, values.len()) } else { SparseBuilder::new(universe, values.len()).unwrap() };
@@ -695,6 +723,14 @@ fn sparse_vector(em: &mut Emit, rng: &mut Rng, universe: usize, values: &[usize]
         }
     };
     let kind = if multiset { "sparse_multiset" } else { "sparse" };
+    // the low width the crate chose (the model's oracle argument); without it the cases keep a vacuous model side
+    em.sparse_w = match catch(|| sparse_width(&sv)) {
+        Res::Ok(w) => Some(w),
+        Res::Panic(_, _) => None,
+    };
+    if let Some(w) = em.sparse_w {
+        em.out.stat(&format!("c10.sparse_width.{:02}", w));
+    }
     let vals: Vec<u64> = values.iter().map(|v| *v as u64).collect();
     let st = format!("(SSparse {} {})", universe, nlist(&vals));
     let sj = format!("{{\"type\":\"SparseVector\",\"universe\":{},\"multiset\":{},\"values\":{:?}}}", universe, multiset, vals);
@@ -993,7 +1029,7 @@ fn gen_runs(rng: &mut Rng, nruns: usize, max_gap: usize, max_len: usize) -> (usi
 
 pub fn run(rng: &mut Rng, out: &mut Out, thorough: bool, variant: &str) {
     // thorough volumes are bounded by the memory coqc needs to read a shard (about 0.5 GB per MB of case terms, 16 shards at once)
-    let mut em = Emit { out, strings: if thorough { 6 } else { 4 } };
+    let mut em = Emit { out, strings: if thorough { 6 } else { 4 }, sparse_w: None };
     let mut files = Files::new();
     let reps = if thorough { 3 } else { 1 };
     let nent = if thorough { 2 } else { 1 };
